@@ -35,7 +35,13 @@ func (m *Machine) CleanRestart(sel func(path string, i int) bool) error {
 			}
 		}
 	}
-	return m.Open()
+	err := m.Open()
+	if err == nil && m.AutoDrain {
+		// the post-open hint sweep of older chunks runs in a goroutine; history-quantified
+		// checks let it finish before the next letter (schedules are explored elsewhere)
+		m.S.Drain()
+	}
+	return err
 }
 
 // Adopt resolves the version uncertainty the properties allow after a restart
